@@ -113,7 +113,12 @@ func (l *Lexer) readLeadingComments() {
 				l.hadNewlineBefore = true
 				l.ReadChar()
 			}
-			l.leadingComments = append(l.leadingComments, strings.TrimRight(comment.String(), " "))
+			text := strings.TrimRight(comment.String(), " ")
+			if text == "" {
+				// the empty string is the blank-line marker: a comment without text keeps one blank
+				text = " "
+			}
+			l.leadingComments = append(l.leadingComments, text)
 		}
 
 		if !isWhitespace(l.CurrentChar) {
